@@ -225,8 +225,8 @@ def main(argv):
         # -f with a field hashing to 0: the key of `-f 2` is Murmur(field2, seed 1)
         cases.append(("boundary/line-hashing-to-0", b"p\t" + z16 + b"\tq\nr\t" + z16 + b"\ts\nt\tu\tv\n", "pipe", ["-f", "2"], cut_key("2", b"\t"), ("2", "09")))
 
-        model_in = []       # lines for the 3-step model pipeline
         results = []
+        dl = []
         for (bucket, data, backing, args, keyf, hxopt) in cases:
             st, out, err = run_dedupe(exe, data, backing, tmp, args)
             results.append((st, out))
@@ -322,6 +322,10 @@ def main(argv):
                     cs, mo, impl = min(dis, key=lambda d: len(d[0][1]))
                     c.broken.append("tool correspondence COMPLETE dedupe model (Fields+Murmur+seen-set) vs bin/dedupe: %d disagreement(s); smallest: stdin=%r args=%r model=%s impl=%s" % (
                         len(dis), cs[1][:100], cs[3], mo[:200], impl[:200]))
+
+        # ------------------------------------------------------------ memory safety of the class under ASan/UBSan
+        if thorough and drv is not None and not c.violations:
+            asan_lines(c, "hx_dedupe", dl[:3000], "(Dedupe/FieldDedupe over the generated lines)")
 
         # ------------------------------------------------------------ parallel mode
         pcases = []
